@@ -455,6 +455,73 @@ def check_dump_stream(T, ids, mode):
     T.nontrivial += 1 if len(ids) >= 2 else 0
 
 
+EV_DOCS = [
+    E.doc([E.S('v', tag='tag:e.com,2000:t', implicit=(False, False), style="'")], explicit=True, tags=(('!e!', 'tag:e.com,2000:'),)),
+    E.doc([E.S('w', tag='tag:e.com,2000:t', implicit=(False, False), style="'")], explicit=True),
+    E.doc([E.S('x', tag='tag:e.com,2000:t', implicit=(False, False), style="'")], explicit=True, tags=(('!e!', 'tag:other.org,2011:'),)),
+    E.doc(E.seq([E.seq([[E.S('1')]], anchor='a'), [('ALIAS', 'a')]]), explicit=True),
+    E.doc(E.mapping([([E.S('k', anchor='a')], [E.S('needs: quoting')])]), explicit=True, version=(1, 1)),
+    E.doc([E.S('y', tag='tag:yaml.org,2002:str', implicit=(False, False), style="'")], explicit=True, tags=(('!!', 'tag:e.com,2000:'),)),
+]
+
+
+def _nodes_pool():
+    leaf = yaml.ScalarNode('tag:yaml.org,2002:str', 'leaf')
+    sub = yaml.SequenceNode('tag:yaml.org,2002:seq', [yaml.ScalarNode('tag:yaml.org,2002:int', '7')])
+    return [yaml.SequenceNode('tag:yaml.org,2002:seq', [leaf, sub]), yaml.MappingNode('tag:yaml.org,2002:map', [(yaml.ScalarNode('tag:yaml.org,2002:str', 'k'), sub)]),
+            yaml.SequenceNode('tag:yaml.org,2002:seq', [sub, sub]), leaf, yaml.SequenceNode('tag:yaml.org,2002:seq', [])]
+
+
+def _same_docs(whole, parts):
+    """the stream text denotes exactly the documents of the single texts, in order (events compared; whether a '...' is
+    written between two documents is presentation and differs between the emitters)"""
+    def docs(text):
+        out, cur = [], []
+        for ev in yaml.parse(text, Loader=yaml.SafeLoader):
+            d = E.describe(ev)
+            if d[0] in ('SS', 'SE'):
+                continue
+            cur.append(_nomark(d) if d[0] != 'DS' else ('DS', None, d[2], d[3]))
+            if d[0] == 'DE':
+                out.append(cur)
+                cur = []
+        return out
+    try:
+        a = docs(whole)
+        b = [d for p_ in parts for d in docs(p_)]
+    except yaml.YAMLError:
+        return False
+    return a == b
+
+
+def check_emit_stream(T, ids):
+    """emit / serialize_all of several documents == the documents emitted / serialized one by one (explicit starts)"""
+    for dn, Dm in (('py', yaml.Dumper), ('c', yaml.CDumper)):
+        T.evaluations += 1
+        case = {'event_docs': list(ids), 'dumper': dn}
+        try:
+            whole = yaml.emit(E.build_all(E.stream(*[EV_DOCS[i] for i in ids])), Dumper=Dm)
+            parts = ''.join(yaml.emit(E.build_all(E.stream(EV_DOCS[i])), Dumper=Dm) for i in ids)
+        except Exception as e:
+            T.violation('dump-streams', 'exception:' + type(e).__name__, case, detail=str(e)[:200])
+            continue
+        if not _same_docs(whole, [yaml.emit(E.build_all(E.stream(EV_DOCS[i])), Dumper=Dm) for i in ids]):
+            T.violation('dump-streams', 'document-not-independent', case, detail='%s emit of the stream gives %r, the documents one by one give %r' % (dn, whole[:300], parts[:300]))
+        T.evaluations += 1
+        case = {'node_docs': list(ids), 'dumper': dn}
+        pool = _nodes_pool()
+        nodes = [pool[i % len(pool)] for i in ids]
+        try:
+            whole = yaml.serialize_all(nodes, Dumper=Dm, explicit_start=True)
+            parts = ''.join(yaml.serialize(n, Dumper=Dm, explicit_start=True) for n in nodes)
+        except Exception as e:
+            T.violation('dump-streams', 'exception:' + type(e).__name__, case, detail=str(e)[:200])
+            continue
+        if not _same_docs(whole, [yaml.serialize(n, Dumper=Dm, explicit_start=True) for n in nodes]):
+            T.violation('dump-streams', 'document-not-independent', case, detail='%s serialize_all gives %r, the nodes one by one give %r' % (dn, whole[:300], parts[:300]))
+    T.nontrivial += 1 if len(ids) >= 2 else 0
+
+
 # ---------------------------------------------------------------- engine interface
 def plan(tier, seed):
     q = tier == 'quick'
@@ -517,6 +584,7 @@ def run_job(job, T):
             for ids in itertools.product(range(len(DUMP_DOCS)), repeat=n):
                 for mode in ('fresh', 'same-objects', 'mutated'):
                     check_dump_stream(T, ids, mode)
+                check_emit_stream(T, ids)
         T.sample('dump-streams', {'dump_docs': list(ids)})
     elif kind == 'streams':
         _, k, np_ = job
@@ -534,7 +602,10 @@ def run_job(job, T):
 
 def replay(sub, case, T):
     if sub == 'dump-streams':
-        check_dump_stream(T, tuple(case['dump_docs']), case['mode'])
+        if 'dump_docs' in case:
+            check_dump_stream(T, tuple(case['dump_docs']), case['mode'])
+        else:
+            check_emit_stream(T, tuple(case.get('event_docs') or case.get('node_docs')))
         return
     if sub == 'streams':
         check_stream(T, tuple(case['docs']))
